@@ -102,7 +102,7 @@ def run_case(cid, rng, workdir):
     seq = "".join(rng.choice(alpha) for _ in range(n))
     for c in seq:
         note(res, "letters_seen", kind[0] + c)
-    circ = fmt == "ig" and kind != "PROTEIN" and n >= 3 and rng.random() < 0.4
+    circ = fmt == "ig" and n >= 3 and rng.random() < 0.4          # cyclic peptides included
     tab = {"DNA": DNA, "RNA": RNA, "PROTEIN": AA}[kind]
     names = [tab[c] for c in seq]
     if kind != "PROTEIN" and not circ and fmt != "txt":
